@@ -196,7 +196,8 @@ example : ∃ s : State Nat, Reachable 2 s ∧ s.cons = .waiting ∧ Visible s.r
       rw [h] at this; exact Option.some.inj this
     · have : (runActs (Rtsp.RingConc.init 2) exPending).map (fun s => Rtsp.Ring.slot s.ring s.ring.readIndex) = some (some 7) := rfl
       rw [h] at this
-      left; rw [Option.some.inj this]; simp
+      have e : Rtsp.Ring.slot s.ring s.ring.readIndex = some 7 := Option.some.inj this
+      left; rw [e]; simp
 
 /-! ## 3. The processor (internal/asyncprocessor) -/
 
